@@ -116,6 +116,9 @@ func c06Run(f []string) string {
 	if ans, ok := c06RunGlob(f); ok {
 		return ans
 	}
+	if ans, ok := c06RunGzip(f); ok {
+		return ans
+	}
 	switch f[0] {
 	case "glob":
 		rec := f[1] == "1"
@@ -233,8 +236,11 @@ func c06Gzip(data []byte, level int, name string) []byte {
 // c06File returns a kind label and the file bytes.
 func c06File(r *Rand) (string, []byte) {
 	text := c06Text(r)
-	k := r.Intn(20)
+	k := r.Intn(23)
 	switch {
+	case k >= 20: // hand-made header (FEXTRA/FNAME/FCOMMENT/FHCRC/reserved bits, intact or damaged) + real stream
+		b, kind := c06GzipWithHeader(r, text)
+		return kind, b
 	case k < 5:
 		return "plain", text
 	case k == 5:
@@ -461,6 +467,7 @@ func c06Gen(r *Rand, tier string) []string {
 		nGlob, nOpen = 1000, 4000
 	}
 	out = append(out, c06GenGlobCases(r, tier)...)
+	out = append(out, c06GzipGenCases(r, tier)...)
 	for i := 0; i < nGlob; i++ {
 		out = append(out, c06GenGlob(r))
 	}
@@ -476,6 +483,7 @@ func c06Stats(cases []string) map[string]int {
 		f := strings.Fields(c)
 		st["op:"+f[0]]++
 		c06GlobStats(st, f)
+		c06GzipStats(st, f)
 		switch f[0] {
 		case "glob":
 			if f[1] == "1" {
